@@ -12,18 +12,26 @@ Property theorems only.  Model: `Operon/Model/Coord.lean`, `CoordDfs.lean`, `Coo
 state `s` (any registered resources, any foreign holders with any hold counts, preemptable or not, any waiting
 lists and dependency edges, any watchdog configuration and clock), every request list `req` (repeated and
 unregistered ids included), every priority, and every adversary `adv`: the outcome of each of the four checkpoint
-evaluations (default condition / false / raising), what the work function does to the system from inside (nothing,
-manual kill of any operation, shutdown, a watchdog run, a maintenance run, after any amount of virtual time) and
-whether it returns or raises, and what `validate_fn` does (absent / true / false / raising).  Whether the k-th
-acquisition is blocked is decided by `s`.
+evaluations (default condition / false / raising), what each of the six callbacks — the four checkpoint conditions,
+the work function, `validate_fn` — does to the system from inside before it answers (nothing, manual kill of any
+operation incl. the running one, shutdown, a watchdog run, a maintenance run, after any amount of virtual time),
+whether the work function returns or raises, and what `validate_fn` answers (absent / true / false / raising).
+Whether the k-th acquisition is blocked is decided by `s`.
+
+An operation that is ended from inside one of its own callbacks (say a manual kill fired by the G0 checkpoint
+condition, before anything is acquired) is no longer listed as active, but `execute_operation` goes on with the
+context object it holds: it acquires, works, validates and commits or aborts.  The theorems cover that course too —
+in particular `c14_no_leak_on_any_exit`: what such an unlisted operation acquires is given back when the call returns.
 -/
 namespace Operon.Coord
 
 /-- **No leak on any exit.**  If the operation owns nothing when `execute_operation` is called (in particular:
     its id is fresh), then however the call ends — committed, blocked on the k-th resource, unknown resource,
-    failed or raising checkpoint, work raising, validation false or raising, killed from inside work by a manual
-    kill, a shutdown, the watchdog or a maintenance run — in the returned system no registered resource is owned
-    by the operation, it is not listed as active, it is in no waiting list, and no dependency edge mentions it. -/
+    failed or raising checkpoint, work raising, validation false or raising, killed by a manual kill, a shutdown,
+    the watchdog or a maintenance run fired from inside any of its callbacks (any checkpoint condition — also the
+    G0 one, before anything is acquired —, the work function, `validate_fn`) — in the returned system no registered
+    resource is owned by the operation, it is not listed as active, it is in no waiting list, and no dependency edge
+    mentions it. -/
 theorem c14_no_leak_on_any_exit (s : Sys) (op : Nat) (prio : Int) (req : List Nat) (adv : Adv)
     (hown : ∀ r, ¬ Owns s op r) :
     let s' := (exec s op prio req adv).sys
@@ -37,12 +45,13 @@ theorem c14_no_leak_on_any_exit (s : Sys) (op : Nat) (prio : Int) (req : List Na
     result other than BLOCKED (it was not requested, or the loop stopped before it, or the attempt on it was
     blocked) is, after the call, exactly the lock it was before: owner, owner priority, hold count, preemption flag
     and waiting list.  Assumed of the lock before the call: it is not owned by the operation, the operation is not
-    in its waiting list, and the waiting list is sorted (an invariant of `_add_to_waiting`).  Assumed of the work
-    function: it kills nobody else (a kill of another operation, a shutdown or a watchdog run legitimately frees
-    that operation's locks). -/
+    in its waiting list, and the waiting list is sorted (an invariant of `_add_to_waiting`).  Assumed of the
+    callbacks (`Adv.SelfOnly`: each of the four checkpoint conditions, the work function, `validate_fn`): they kill
+    nobody else — each does nothing to the system or ends the operation itself (a kill of another operation, a
+    shutdown or a watchdog run legitimately frees that operation's locks). -/
 theorem c14_unobtained_untouched (s : Sys) (op : Nat) (prio : Int) (req : List Nat) (adv : Adv) (r : Nat) (l : Lock)
     (hl : s.locks r = some l) (hforeign : l.owner ≠ some op) (hsorted : SortedDesc l.waiting)
-    (hnotwaiting : ∀ e ∈ l.waiting, e.1 ≠ op) (hact : adv.act = .none ∨ adv.act = .kill op)
+    (hnotwaiting : ∀ e ∈ l.waiting, e.1 ≠ op) (hact : adv.SelfOnly op)
     (hnever : ∀ res, Ev.acq r (some res) ∈ (exec s op prio req adv).log → res = .blocked) :
     (exec s op prio req adv).sys.locks r = some l :=
   untouched_exec s op prio req adv r l hl ⟨hforeign, hsorted, hnotwaiting⟩ hact hnever
@@ -74,15 +83,20 @@ theorem c14_work_at_most_once (s : Sys) (op : Nat) (prio : Int) (req : List Nat)
   | cp3 _ hv => rcases hv with hv | hv <;> rw [hv] <;> decide
   | commit _ hv => rcases hv with hv | hv <;> rw [hv] <;> decide
 
-/-- **The work function runs only while the operation holds all requested resources.**  If the log contains a
-    work event, the system as the work function found it (`atWork`) exists, and in it every requested resource is
-    registered and owned by the operation. -/
-theorem c14_work_only_with_all_resources (s : Sys) (op : Nat) (prio : Int) (req : List Nat) (adv : Adv)
+/-- **The work function runs only while the operation holds all requested resources** — outside the trigger of the
+    open finding `C14-work-after-kill-in-g1-checkpoint`.  If the log contains a work event, the system as the work
+    function found it (`atWork`) exists, and in it every requested resource is registered and owned by the
+    operation, provided the callback of the G1 → S checkpoint — the one callback that runs between the last
+    acquisition and the work function — leaves the operation alone (`WorkAct.spares`: it does nothing to the system
+    or kills another operation).  Nothing is assumed of the other five callbacks: an operation killed from inside
+    its G0 checkpoint, before the acquisitions, still obtains every requested resource before it works. -/
+theorem c14_work_only_with_all_resources_partial (s : Sys) (op : Nat) (prio : Int) (req : List Nat) (adv : Adv)
+    (hspares : (adv.cpAct 1).spares op)
     (ok : Bool) (hran : Ev.work ok ∈ (exec s op prio req adv).log) :
     ∃ w, (exec s op prio req adv).atWork = some w ∧ ∀ r ∈ req, Owns w op r := by
   obtain ⟨b0, acqs, t, hacq, hlog, _, hnone⟩ := exec_shape s op prio req adv
   cases haw : (exec s op prio req adv).atWork with
-  | some w => exact ⟨w, rfl, exec_atWork s op prio req adv w haw⟩
+  | some w => exact ⟨w, rfl, exec_atWork s op prio req adv w hspares haw⟩
   | none =>
     exfalso
     rw [hlog] at hran
@@ -91,6 +105,42 @@ theorem c14_work_only_with_all_resources (s : Sys) (op : Nat) (prio : Int) (req 
     · cases h
     · obtain ⟨r, res, he⟩ := hacq _ h; cases he
     · rcases hnone haw with ht | ht <;> rw [ht] at h <;> simp at h
+
+-- FULL (false on current tree): theorem c14_work_only_with_all_resources (s op prio req adv) (ok : Bool)
+--     (hran : Ev.work ok ∈ (exec s op prio req adv).log) :
+--     ∃ w, (exec s op prio req adv).atWork = some w ∧ ∀ r ∈ req, Owns w op r
+
+private def advKillInG1 : Adv :=
+  { cp := fun _ => .base, act := .none, workOk := true, val := .yes,
+    cpAct := fun i => if i = 1 then .kill 1 else .none }
+
+/-- **Open finding: the work function runs after the operation was ended from inside its G1 → S checkpoint.**
+    `execute_operation` does not look at the operation again between `advance` and `work_fn()`: when the condition
+    of the G1 → S checkpoint ends the operation (manual kill here; a shutdown or a watchdog run do the same) and
+    then answers True, everything the operation had acquired has been released, and the work function still runs —
+    holding nothing.  Concretely: r1 registered, `execute_operation(op1, resources=[r1])`, the G1 checkpoint
+    condition calls `kill_operation(op1)`: the log shows the completed work, the call reports success, and in the
+    system the work function found r1 is free. -/
+theorem c14_work_after_kill_in_g1_checkpoint_witness :
+    ∃ (s : Sys) (op : Nat) (prio : Int) (req : List Nat) (adv : Adv),
+      (∀ r, ¬ Owns s op r) ∧ Ev.work true ∈ (exec s op prio req adv).log ∧ (exec s op prio req adv).success = true ∧
+      (exec s op prio req adv).atWork.isSome = true ∧
+      ∀ w, (exec s op prio req adv).atWork = some w → ∃ r ∈ req, ¬ Owns w op r := by
+  refine ⟨({} : Sys).register 1 false, 1, 3, [1], advKillInG1, ?_, by decide, by decide, by decide, ?_⟩
+  · rintro r ⟨l, hl, ho⟩
+    simp only [Sys.register] at hl
+    split at hl
+    · cases hl; cases ho
+    · cases hl
+  · intro w hw
+    refine ⟨1, by simp, ?_⟩
+    rintro ⟨l, hl, ho⟩
+    have h : ((exec (({} : Sys).register 1 false) 1 3 [1] advKillInG1).atWork.bind (·.locks 1)).map (·.owner) = some none := by
+      decide
+    rw [hw] at h
+    simp only [Option.bind_some, hl, Option.map_some, Option.some.injEq] at h
+    rw [h] at ho
+    cases ho
 
 /-- **Validation runs only after work completed.**  Wherever a validation event stands in the log, a work event
     that returned (did not raise) stands before it. -/
@@ -471,6 +521,28 @@ example : (exec s1 1 3 [2] advOk).success = true ∧
 example : (exec s0 1 3 [1, 2, 1] { advOk with act := .kill 1, workOk := false }).success = false ∧
     ((exec s0 1 3 [1, 2, 1] { advOk with act := .kill 1, workOk := false }).sys.locks 1).map (·.owner) = some none ∧
     (exec s0 1 3 [1, 2, 1] { advOk with act := .kill 1, workOk := false }).sys.active = [] := by decide
+
+/-- ended from inside its own G0 checkpoint condition, before anything is acquired (the operation is then no
+    longer listed): it still acquires r1 and r2, works holding both, commits — and both are free afterwards; the same
+    with a validator that says no, and with a shutdown fired from inside `validate_fn` -/
+example :
+    (exec s0 1 3 [1, 2] { advOk with cpAct := fun i => if i = 0 then .kill 1 else .none }).success = true ∧
+    ((exec s0 1 3 [1, 2] { advOk with cpAct := fun i => if i = 0 then .kill 1 else .none }).atWork.map
+      (fun w => (w.ctx? 1).isNone && (w.locks 1).map (·.owner) == some (some 1) && (w.locks 2).map (·.owner) == some (some 1)))
+      = some true ∧
+    ((exec s0 1 3 [1, 2] { advOk with cpAct := fun i => if i = 0 then .kill 1 else .none }).sys.locks 1).map (·.owner) = some none ∧
+    ((exec s0 1 3 [1, 2] { advOk with cpAct := fun i => if i = 0 then .kill 1 else .none }).sys.locks 2).map (·.owner) = some none ∧
+    (exec s0 1 3 [1, 2] { advOk with val := .no, cpAct := fun i => if i = 0 then .kill 1 else .none }).success = false ∧
+    ((exec s0 1 3 [1, 2] { advOk with val := .no, cpAct := fun i => if i = 0 then .kill 1 else .none }).sys.locks 2).map (·.owner)
+      = some none ∧
+    ((exec s0 1 3 [1, 2] { advOk with valAct := .shutdown }).sys.locks 1).map (·.owner) = some none := by decide
+
+/-- the hypotheses of the two theorems about callbacks are satisfiable: a G1 checkpoint condition that kills
+    another operation spares op 1; callbacks that only end op 1 itself are `SelfOnly` -/
+example : (WorkAct.kill 7).spares 1 ∧ WorkAct.none.spares 1 ∧
+    ({ advOk with cpAct := fun i => if i = 0 then .kill 1 else .none, valAct := .kill 1 } : Adv).SelfOnly 1 :=
+  ⟨Or.inr ⟨7, rfl, by decide⟩, Or.inl rfl,
+    ⟨fun i => by by_cases h : i = 0 <;> simp [WorkAct.selfOnly, h], Or.inl rfl, Or.inr rfl⟩⟩
 
 /-- the cell layer: success with and without a tag, failure attributed to coordination when validation raises,
     failure without a blocker when the post-processing raises after a commit -/
